@@ -150,6 +150,52 @@ class LineBasedToStr(Contract):
         return {"seq": fresh(("list", "str"), "seq").val}
 
 
+# P-17e  parse_multiline_as_lines (the reader of every multi-line field): the first line as it is, every later line without its
+# leading blank, a lone '.' after the blank standing for an empty line; MachineReadableFormatError exactly when a later line does
+# not start with a blank.  str.splitlines is an uninterpreted function here (the same application in code and contract), the
+# list is edited in place while it is being enumerated.
+def dec_upto(ls, k):
+    if k <= 0:
+        return empty_lines()
+    return dec_upto(ls, k - 1) + [dec_line(k - 1, ls[k - 1])]
+
+
+def cont_from(ls, k):
+    """every line from index k on, the first line of the text excepted, starts with a blank"""
+    if k >= len(ls):
+        return True
+    return (k == 0 or ls[k].startswith(" ")) and cont_from(ls, k + 1)
+
+
+class ParseLines(Contract):
+    locals_order = ['s', 'lines', 'i', 'line']
+    target = MOD + ":parse_multiline_as_lines"
+    modular = False
+    ensures = ("cont_from(s.splitlines(), 0)",
+               "result == dec_upto(s.splitlines(), len(s.splitlines()))")
+    raises = {"MachineReadableFormatError": ("not cont_from(s.splitlines(), 0)",)}
+    loops = {0: LoopSpec(invariants=("0 <= pi and pi <= len(lines)", "len(lines) == len(s.splitlines())",
+                                     "lines[:pi] == dec_upto(s.splitlines(), pi)", "lines[pi:] == s.splitlines()[pi:]",
+                                     "cont_from(s.splitlines(), pi) == cont_from(s.splitlines(), 0)",
+                                     "mention(dec_upto(s.splitlines(), pi + 1))", "mention(cont_from(s.splitlines(), pi + 1))"),
+                         index="pi", var_types={"i": "int", "line": "str"})}
+
+    def setup(self, ex):
+        return {"s": fresh("str", "s")}
+
+
+def verify_parse_lines(ctx):
+    sl = SpecLib()
+    w = World(sl)
+    w.spec_env["empty_lines"] = VFunc("builtin", "empty_lines",
+                                      fn=lambda ex, a, kw: VSeq("list", "str", z3.Empty(z3.SeqSort(z3.SeqSort(z3.IntSort())))))
+    w.spec_func(dec_line)
+    w.spec_func(dec_upto, rec=dict(args=[("list", "str"), "int"], ret=("list", "str")))
+    w.spec_func(cont_from, rec=dict(args=[("list", "str"), "int"], ret="bool"))
+    verify_contracts(ctx, w, [ParseLines()], {})
+    ctx.solve()
+
+
 def verify_space_separated(ctx, real):
     sl = SpecLib()
     w = World(sl)
@@ -198,6 +244,7 @@ def run(ctx):
             ctx.function_under_contract(MOD + ":" + q, mod.segment(node))
     run_deductive(ctx)
     verify_space_separated(ctx, extract.load(MOD).real())
+    verify_parse_lines(ctx)
     rng = random.Random(ctx.seed)
     N = 3 if ctx.tier == "quick" else 4
     t = Tally(ctx, "B-17 multiline codec on all short line lists; documents dump -> strict parse -> dump",
@@ -331,8 +378,10 @@ def run(ctx):
     ctx.explanation = ("PROVED from the AST: format_multiline_lines(lines) == '\\n'.join of the per-line encoding fmt_line (loop invariant); "
                        "LEMMA (all lines): decoding an encoded line gives the line back whenever it is not whitespace-only and not a "
                        "lone '.', and every encoded continuation line starts with a blank; a continuation line is never taken for a "
-                       "PGP armor line or a paragraph separator by the patterns of split_gpg_and_payload (SMT on the real patterns); split_gpg_and_payload, from its real AST, returns exactly the lines (CR / LF stripped) as payload - nothing taken for armor, nothing cut off - for every sequence of lines none of which matches the armor pattern or the separator pattern in force (loop invariant over the line index; both parser settings). ALSO PROVED from the ASTs: _SpaceSeparated.to_str and _LineBased.to_str against recursive specifications (every value stripped, in order, joined by exactly one blank resp. each on a line of its own after an empty first line; None for an empty list; MachineReadableFormatError exactly when a value is empty or contains whitespace resp. a newline). NOT proved: parse_multiline_as_lines (in-place "
-                       "update while iterating), the join/splitlines law, License / paragraph classes - BOUNDED part (see module docstring).")
+                       "PGP armor line or a paragraph separator by the patterns of split_gpg_and_payload (SMT on the real patterns); split_gpg_and_payload, from its real AST, returns exactly the lines (CR / LF stripped) as payload - nothing taken for armor, nothing cut off - for every sequence of lines none of which matches the armor pattern or the separator pattern in force (loop invariant over the line index; both parser settings). ALSO PROVED from the ASTs: _SpaceSeparated.to_str and _LineBased.to_str against recursive specifications (every value stripped, in order, joined by exactly one blank resp. each on a line of its own after an empty first line; None for an empty list; MachineReadableFormatError exactly when a value is empty or contains whitespace resp. a newline). ALSO PROVED from the AST: parse_multiline_as_lines against a recursive per-line decoding of s.splitlines() (first line kept, "
+                       "later lines without their leading blank, a lone '.' after it standing for an empty line; list edited in place while "
+                       "enumerated; MachineReadableFormatError exactly when a later line does not start with a blank) - str.splitlines "
+                       "itself is an uninterpreted function. NOT proved: the join/splitlines law, License / paragraph classes - BOUNDED part (see module docstring).")
     ctx.assumptions += ["the single empty line list [''] is outside the domain of the codec clause (it encodes to '' which decodes to [])",
                         "lines contain no line-boundary characters"]
 
